@@ -274,8 +274,14 @@ func decodePlaceholder(s string) int {
 		return 0
 	}
 
-	i, _ := strconv.Atoi(s[1:])
-	return i
+	// placeholders are stored as int32; anything that does not fit is invalid (and
+	// reported as such by the caller) instead of being silently truncated.
+	i, err := strconv.ParseInt(s[1:], 10, 32)
+	if err != nil {
+		return 0
+	}
+
+	return int(i)
 }
 
 func (p *parser) parseFieldList() []string {
